@@ -236,6 +236,22 @@ def norm_def(d):
 _WORLD = None
 
 
+def delayed_consumer_act(tid, argnames, changed, dependencies, targets, **kw):
+    """python-action of a task created by a delayed task-creator: a module-level callable given as (callable, [args]) so
+    that the whole Task object can be pickled (`MRunner.get_next_job` sends `JobTask(task)` for such tasks under the
+    process runner); records the kwargs it received like every other consumer action"""
+    rec = {'t': tid, 'changed': list(changed), 'dependencies': list(dependencies), 'targets': list(targets),
+           'args': {k: kw[k] for k in argnames if k in kw},
+           'extra': sorted(k for k in kw if k not in argnames)}
+    try:
+        rec['rawdiff'] = sorted(k for k in rec['args'] if repr(kw[k]) != repr(_jnorm(kw[k])))
+    except Exception:  # noqa
+        rec['rawdiff'] = ['unserialisable']
+    with open(OBS_PY, 'a') as f:
+        f.write(json.dumps(rec, default=repr) + '\n')
+    return _WORLD._effect(str(tid))()
+
+
 def delayed_effect(key):
     """action of a sub-task created by a delayed loader: must be picklable by reference (process runner)"""
     return _WORLD._effect(key)()
@@ -316,8 +332,13 @@ class World(statuslib.World):
             else:
                 bits = ['t=%d' % tid, 'C=%(changed)s', 'D=%(dependencies)s', 'T=%(targets)s']
                 bits += ['A:%s=%%(%s)s' % (a, a) for a in argnames]
+            if d['delayed'] is not None and not d['subs']:
+                return ['echo "%s" >> %s' % (';'.join(bits), OBS_CMD), (delayed_effect, [str(tid)])]
             return ['echo "%s" >> %s' % (';'.join(bits), OBS_CMD), effect]
 
+        if d['delayed'] is not None and not d['subs']:
+            # task created by a delayed task-creator: picklable action (see delayed_consumer_act)
+            return [(delayed_consumer_act, [tid, argnames])]
         form = d['kwform']
         own = argnames + (['tag'] if form else [])
 
@@ -424,6 +445,15 @@ class World(statuslib.World):
                 if d['calc']:
                     out['calc_dep'] = [tname(c) for c in d['calc']]
                 return out
+            if d['delayed'] is not None:
+                # the consumer itself is created by a delayed task-creator (after task `delayed` was executed)
+                from doit import create_after
+
+                def delayed_creator(creator=creator, t=t):
+                    yield dict(creator(), basename=tname(t))
+                delayed_creator = create_after(executed=tname(d['delayed']))(delayed_creator)
+                ns['task_' + tname(t)] = delayed_creator
+                continue
             ns['task_' + tname(t)] = creator
         return ns
 
@@ -804,7 +834,9 @@ def translate(case, obs):
                         tasks += list(dl.get('tasks', []))
                         # a delivered file_dep that is another task's target is an implicit task_dep
                         for q in dl.get('deps', []):
-                            tasks += [u for u, du in defs.items() if u != c and q in du['targets']]
+                            # (targets of a task created by a delayed task-creator are not known when the calc result is
+                            # processed: doit adds no implicit dependency for them)
+                            tasks += [u for u, du in defs.items() if u != c and q in du['targets'] and du['delayed'] is None]
                 order_ok = all(u in done_at and c in started_at and done_at[u] < started_at[c] and
                                out.get(tname(u)) in ('ok', 'up-to-date') for u in tasks) \
                     if o['op'][1].get('par') != 'process' else \
@@ -885,6 +917,12 @@ def _judge(case, obs, tr, msteps, psteps, vsteps, v):
                 v.count('run:always')
     if tr.skipped:
         v.count('skipped:' + tr.skipped[:40])
+    for i_, o_ in enumerate(obs):
+        for ek, en, einfo in (o_.get('events') or []):
+            if ek == 'runtime_error':
+                # doit gave up the run (invalid task from a delayed creator, cyclic dependency, ...): nothing of the
+                # history after that is as generated
+                v.divergence = v.divergence or (i_, 'doit reported a runtime error', str(einfo)[:300], 'none expected')
     # model crashed or ambiguous somewhere: the rest of the history is not compared (C03's subject)
     stop_at = None
     for idx, i, t, oc, kw, always in tr.selects:
@@ -965,6 +1003,8 @@ def _judge(case, obs, tr, msteps, psteps, vsteps, v):
             if kw.get('cmd'):
                 v.count('cmd-action-string-formatting:' + (case.get('fmt') or 'old'))
             v.count('file-names:' + ['plain', 'with a space', 'with braces'][int(case.get('fstyle') or 0)])
+            if dd_['delayed'] is not None and not dd_['subs']:
+                v.count('consumer-created-by-a-delayed-task-creator:' + (next((o_['op'][1].get('par') for o_ in [obs[i]]), None) or 'serial'))
             if dd_['pathobj']:
                 v.count('file_dep/targets-written-as-pathlib:' + dd_['pathobj'])
             if dd_['ga_list']:
@@ -1148,6 +1188,8 @@ def render(case):
                                                  ' sources listed in setup' if d['via_setup'] else ''))
             if d['calc']:
                 bits.append('calc_dep %s' % [tname(c) for c in d['calc']])
+            if d['delayed'] is not None and not d['subs']:
+                bits.append('created by a delayed task-creator (create_after executed=%s)' % tname(d['delayed']))
             if d['pathobj']:
                 bits.append('file_dep/targets as pathlib %s objects' % d['pathobj'])
             if d['ga_list']:
@@ -1295,6 +1337,9 @@ def gen_case(rng, parallel=False):
                 d['kwform'] = rng.choice(['varkw', 'varkw', 'explicit'])
             if rng.random() < 0.25:
                 d['pathobj'] = rng.choice(['path', 'pure'])
+            anchors = [u for u in range(t) if roles[u] in ('producer', 'calc')]
+            if anchors and rng.random() < 0.3:
+                d['delayed'] = rng.choice(anchors)
             if sources and rng.random() < 0.75:
                 ga = []
                 for n in range(rng.choice([1, 1, 2])):
@@ -1343,7 +1388,8 @@ def gen_case(rng, parallel=False):
                 cands = [u for u in range(ntasks) if roles[u] == 'producer']
                 ddeps = sorted(rng.sample(range(nsrc), rng.randint(0, min(2, nsrc))))
                 # a delivered file_dep that is the target of another task: implicit task_dep, same-run ordering
-                tgt = [q for u in range(ntasks) if roles[u] == 'consumer' and not tasks[u]['calc'] for q in tasks[u]['targets']]
+                tgt = [q for u in range(ntasks) if roles[u] == 'consumer' and not tasks[u]['calc'] and tasks[u]['delayed'] is None
+                       for q in tasks[u]['targets']]
                 if tgt and rng.random() < 0.35:
                     ddeps.append(rng.choice(tgt))
                 dl = {'deps': ddeps, 'tasks': [rng.choice(cands)] if cands and rng.random() < 0.4 else []}
